@@ -85,6 +85,13 @@ DATA = {'a': 1, 'b': 'str', 'o': {'k': [1, 2]}, 'n': None}
 PATHS = {'a': ('a', 'v', '[x61]', jtok(1)), 'b': ('b', 'v', '[x62]', jtok('str')), 'o.k': ('o.k', 'v', '[x6f,x6b]', jtok([1, 2])),
          'zz': ('zz', 'm', '-', 'n'), 'n': ('n', 'v', '[x6e]', 'n'), 'o.k.[1]': ('o.k.[1]', 'v', '[x6f,x6b,x31]', jtok(2))}
 
+# names that begin with a keyword or a literal of the grammar are ordinary path names
+for _n, _v in (('elsewhere', 5), ('else_b', 'eb'), ('assets', 'A'), ('as_of', [0]), ('nullable', True), ('trueish', 0), ('falsey', False), ('undefinedx', 'u')):
+    DATA[_n] = _v
+    PATHS[_n] = (_n, 'v', '[' + x(_n) + ']', jtok(_v))
+for _n in ('else1', 'elsez.k', 'asx', 'nullx'):
+    PATHS[_n] = (_n, 'm', '-', 'n')
+
 def arg(rng, depth):
     """(source, expected pj text, log lines produced while evaluating it)"""
     k = rng.random()
